@@ -347,6 +347,8 @@ def case_list(spec_name, cls, strong_ok, spd, n, ctx):
         C(tol=1e-10, maxiter=2, rr=True, ric=True)
         C(tol=1e-6, rhs="own_proj", fs=1e-7)
         if strong_ok:
+            C(tol=1e-8, strong=True, rhs="own_coef", rr=True, ric=True)   # the residual history of the STRONG-form iteration
+        if strong_ok:
             C(tol=1e-6, strong=True, rhs="own_coef", fs=1e-6, rr=False)
     if cls in ("blocked", "generalized") and strong_ok:
         # lists of grid functions with MIXED dtypes (one block real, the others complex), as solution (through A * f) and as
